@@ -126,6 +126,44 @@ func (p *fpPrinter) isLogCall(c *ast.CallExpr) bool {
 	}
 }
 
+// simpleLogCall: every argument in the logging call chain is made of literals, identifiers, field selections, composite
+// literals and operators only — nothing that can panic or have an effect (a call, a dereference, an index, a slice, a
+// type assertion, a receive). Only such logging statements are left out of the fingerprint.
+func simpleLogCall(c *ast.CallExpr) bool {
+	ok := true
+	var args func(e ast.Expr)
+	check := func(a ast.Expr) {
+		ast.Inspect(a, func(m ast.Node) bool {
+			switch x := m.(type) {
+			case *ast.CallExpr, *ast.StarExpr, *ast.IndexExpr, *ast.SliceExpr, *ast.TypeAssertExpr, *ast.FuncLit:
+				ok = false
+			case *ast.UnaryExpr:
+				if x.Op == token.ARROW {
+					ok = false
+				}
+			case *ast.BinaryExpr:
+				if x.Op == token.QUO || x.Op == token.REM {
+					ok = false
+				}
+			}
+			return ok
+		})
+	}
+	args = func(e ast.Expr) {
+		switch x := e.(type) {
+		case *ast.CallExpr:
+			for _, a := range x.Args {
+				check(a)
+			}
+			args(x.Fun)
+		case *ast.SelectorExpr:
+			args(x.X)
+		}
+	}
+	args(c)
+	return ok
+}
+
 func (p *fpPrinter) node(n ast.Node) {
 	if n == nil {
 		p.sb.WriteString("_")
@@ -149,7 +187,7 @@ func (p *fpPrinter) node(n ast.Node) {
 	case *ast.CommentGroup, *ast.Comment:
 		return
 	case *ast.ExprStmt:
-		if c, ok := x.X.(*ast.CallExpr); ok && p.isLogCall(c) {
+		if c, ok := x.X.(*ast.CallExpr); ok && p.isLogCall(c) && simpleLogCall(c) {
 			return
 		}
 	}
